@@ -6,10 +6,14 @@
 # The worktree and all build output are removed afterwards.
 OUT="$1"; DIFF="$2"; shift 2
 ROOT="$(cd "$(dirname "$0")/.." && pwd)"
+# work from a snapshot of the committed machinery so that edits in progress do not interfere
+SNAP="$(mktemp -d /tmp/verif-snap.XXXXXX)"
+git -C "$ROOT" archive HEAD engine hooks scripts known_findings.jsonl | tar -x -C "$SNAP"
+ROOT="$SNAP"
 WT="$(mktemp -d /tmp/mutwt.XXXXXX)"
 name="$(basename "$DIFF")"
 git -C /repo worktree add -f "$WT" HEAD -q --detach
-cleanup() { git -C /repo worktree remove --force "$WT" 2>/dev/null; rm -rf "$WT"; }
+cleanup() { git -C /repo worktree remove --force "$WT" 2>/dev/null; rm -rf "$WT" "$SNAP"; }
 if ! git -C "$WT" apply "$DIFF" 2>/dev/null; then
   printf '%s\t-\tNOAPPLY\t\n' "$name" >> "$OUT"; cleanup; exit 0
 fi
@@ -19,7 +23,7 @@ for id in "$@"; do
   TMP="$(mktemp -d /tmp/verif.XXXXXX)"
   EXTRA=(); [ "$id" = C14 ] && EXTRA=(-stmt leveldb/memdb)
   if VERIF_REPO="$WT" "$ROOT/scripts/build.sh" "$TMP" "${EXTRA[@]}" >"$TMP/build.log" 2>&1; then
-    VERIF_ROOT="$SCR" VERIF_RACE_AUDIT=0 timeout 1500 "$TMP/verif" run "$id" "${TIER:-quick}" > "$TMP/run.log" 2>&1
+    VERIF_BUDGET_S="${VERIF_BUDGET_S:-1500}" VERIF_ROOT="$SCR" VERIF_RACE_AUDIT=0 timeout 4000 "$TMP/verif" run "$id" "${TIER:-quick}" > "$TMP/run.log" 2>&1
     rc=$?
     sig="$(grep -m1 signature "$TMP/run.log" | cut -c1-300 | tr '\t' ' ')"
     if [ $rc -eq 0 ]; then res=MISSED; else res=caught; fi
